@@ -1,11 +1,12 @@
 #!/bin/bash
 # usage: seedcheck.sh <worktree-id> <demo filter> <check ids...>
-# 1. confirm (in the scratch worktree): with the seeded change the 56 baseline tests pass and the demonstration fails;
-#    without it the demonstration passes.  2. apply the change to /repo, run the given checks, undo.
+# 1. confirm (in the scratch worktree /tmp/mut/<id>, which has the seeded change and its demonstration applied):
+#    with the change the 56 baseline tests pass and the demonstration fails; without it the demonstration passes.
+# 2. run the given checks against that worktree (VERIF_REPO): /repo itself is never touched.
 set -u
 ID=$1; FILTER=$2; shift 2
 W=/tmp/mut/$ID
-export CARGO_TARGET_DIR=/tmp/mut/target_confirm CARGO_NET_OFFLINE=true RUST_BACKTRACE=0
+export CARGO_TARGET_DIR=/tmp/mut/target_confirm_$ID CARGO_NET_OFFLINE=true RUST_BACKTRACE=0
 cd $W || exit 2
 touch src/main.rs
 echo "== with change: full suite"
@@ -15,10 +16,11 @@ git apply -R _out/patch.diff || { echo "cannot reverse patch"; exit 2; }
 cargo test --offline $FILTER 2>&1 | grep -E "^test result|FAILED|failed" | head -5
 git apply _out/patch.diff
 unset CARGO_TARGET_DIR
-echo "== framework checks on /repo with the change"
-cd /repo && git apply $W/_out/patch.diff || { echo "patch does not apply to /repo"; exit 2; }
+rm -rf /tmp/mut/target_confirm_$ID
+echo "== framework checks against the worktree with the change"
+[ -d /verif/target/harness_$ID ] || cp -a /verif/target/harness /verif/target/harness_$ID
 cd /verif
 for c in "$@"; do
-  echo "-- check $c"; bin/vf check $c 2>&1 | grep -E "VIOLATION|KNOWN-F|TOOL" | head -3; echo "exit ${PIPESTATUS[0]}"
+  echo "-- check $c"; VERIF_REPO=$W bin/vf check $c 2>&1 | grep -E "VIOLATION|KNOWN-F|TOOL" | head -3; echo "exit ${PIPESTATUS[0]}"
 done
-git -C /repo checkout -- . ; git -C /repo status --short
+rm -rf /verif/target/harness_$ID /verif/target/e2e_$ID /verif/work/*_$ID
